@@ -502,6 +502,15 @@ func c18SinglePass(c *an.Ctx, fn *ssa.Function) {
 				}
 			}
 		case *ssa.Call:
+			// pieces of a derived text are derived
+			if h := x.Call.StaticCallee(); h != nil && h.Pkg != nil && h.Pkg.Pkg.Path() == "strings" && h.Signature.Recv() == nil && len(x.Call.Args) > 0 {
+				switch h.Name() {
+				case "Split", "SplitN", "SplitAfter", "SplitAfterN", "Fields", "Join", "TrimSpace", "Trim", "TrimRight", "TrimLeft", "TrimSuffix", "TrimPrefix":
+					if derived(x.Call.Args[0], seen) {
+						return true
+					}
+				}
+			}
 			// the result of a helper of the family: what it returns
 			if h := x.Call.StaticCallee(); h != nil && inFam[h] && h != fn {
 				found := false
@@ -516,8 +525,15 @@ func c18SinglePass(c *an.Ctx, fn *ssa.Function) {
 				})
 				return found
 			}
+		case *ssa.IndexAddr:
+			return derived(x.X, seen)
+		case *ssa.Index:
+			return derived(x.X, seen)
 		case *ssa.UnOp:
 			if x.Op == token.MUL {
+				if ia, ok := x.X.(*ssa.IndexAddr); ok && derived(ia.X, seen) {
+					return true
+				}
 				// a local variable cell: any value stored into it
 				for _, r := range an.Referrers(x.X) {
 					if st, ok := r.(*ssa.Store); ok && st.Addr == x.X && derived(st.Val, seen) {
@@ -528,6 +544,31 @@ func c18SinglePass(c *an.Ctx, fn *ssa.Function) {
 		}
 		return false
 	}
+	// searching the substituted text for placeholder text is the same mistake without a replacement
+	// call: the line is then blanked, cut or rewritten by hand.  A search with a constant needle that
+	// is not placeholder text ("\n") says nothing about placeholders and is ignored.
+	each(func(in ssa.Instruction) {
+		call, ok := in.(*ssa.Call)
+		if !ok {
+			return
+		}
+		f := call.Call.StaticCallee()
+		if f == nil || f.Pkg == nil || f.Pkg.Pkg.Path() != "strings" || f.Signature.Recv() != nil || len(call.Call.Args) != 2 {
+			return
+		}
+		switch f.Name() {
+		case "Contains", "Index", "LastIndex", "HasPrefix", "HasSuffix", "Count", "ContainsAny", "IndexAny":
+		default:
+			return
+		}
+		if cv, isC := an.ConstVal(call.Call.Args[1]); isC && !strings.Contains(cv.ExactString(), "__") {
+			return
+		}
+		if derived(call.Call.Args[0], map[ssa.Value]bool{}) {
+			c.Fail("H2", "substituted-text-searched-for-placeholders("+f.Name()+" over "+an.StablePath(call.Call.Args[0])+")@"+an.FnName(in.Parent()), call.Pos(),
+				"text into which the quoted values have already been substituted is searched for placeholder text: an argument, path or environment value that contains the text of a placeholder is treated as template text (its line deleted or rewritten)")
+		}
+	})
 	for _, r := range reps {
 		bad := derived(r.hay, map[ssa.Value]bool{})
 		c.Check("H2", "substitution-single-pass("+r.call.Call.StaticCallee().Name()+" over "+an.StablePath(r.hay)+")@(*RemoteJobManager).jobScript", r.call.Pos(), !bad,
